@@ -2,8 +2,8 @@
 //! suite's). One cell per Unicode scalar value, unbounded line width.
 //!
 //! Supported: UTF-8 text, CR, LF (new line, column kept), BS (cursor left),
-//! CUF `CSI n C`, CUB `CSI n D`, CHA `CSI n G`, ICH `CSI n @`, DCH `CSI n P`,
-//! EL `CSI 0|1|2 K`. Anything else is counted in `unsupported` — a harness
+//! CUF `CSI n C`, CUB `CSI n D`, CHA `CSI n G` / HPA, ICH `CSI n @`, DCH `CSI n P`,
+//! ECH `CSI n X`, EL `CSI 0|1|2 K`, save/restore cursor (`ESC 7`/`ESC 8`, `CSI s`/`CSI u`). Anything else is counted in `unsupported` — a harness
 //! error, never a verdict.
 
 #[derive(Clone, Debug, PartialEq, Eq)]
@@ -21,6 +21,7 @@ pub struct Term {
     pub lines_done: u64,
     pub line: Vec<char>,
     pub col: usize,
+    saved_col: usize,
     state: PState,
     params: Vec<u8>,
     utf8: Vec<u8>,
@@ -46,6 +47,7 @@ impl Term {
             lines_done: 0,
             line: Vec::new(),
             col: 0,
+            saved_col: 0,
             state: PState::Ground,
             params: Vec::new(),
             utf8: Vec::new(),
@@ -123,6 +125,10 @@ impl Term {
                 if b == b'[' {
                     self.state = PState::Csi;
                     self.params.clear();
+                } else if b == b'7' {
+                    self.saved_col = self.col;
+                } else if b == b'8' {
+                    self.col = self.saved_col;
                 } else {
                     self.unsupported(format!("ESC 0x{b:02x}"));
                 }
@@ -222,7 +228,18 @@ impl Term {
                 Some(n) => self.col = self.col.saturating_sub(n.max(1)),
                 None => self.unsupported("CUB parameter".into()),
             },
-            b'G' => match self.param(1) {
+            b's' if self.params.is_empty() => self.saved_col = self.col,
+            b'u' if self.params.is_empty() => self.col = self.saved_col,
+            b'X' => match self.param(1) {
+                Some(n) => {
+                    let end = (self.col + n.max(1)).min(self.line.len());
+                    for c in self.col..end {
+                        self.line[c] = ' ';
+                    }
+                }
+                None => self.unsupported("ECH parameter".into()),
+            },
+            b'G' | b'`' => match self.param(1) {
                 Some(n) => self.col = n.max(1) - 1,
                 None => self.unsupported("CHA parameter".into()),
             },
